@@ -253,7 +253,7 @@ def replay_key(ob):
 def replay(ob):
     from props import table_replay as tr
     fails = []
-    for sg in (225, 229, 166, 65, 38, 5, 139, 221, 62, 146, 216):
+    for sg in (225, 229, 166, 167, 65, 38, 5, 139, 221, 62, 146, 216, 155, 161):
         r = tr.replay_primitive(sg)
         if r.get("reproduced"):
             fails.append(r)
